@@ -4,6 +4,7 @@ package kit
 
 import (
 	"bytes"
+	"context"
 	"encoding/json"
 	"flag"
 	"fmt"
@@ -300,9 +301,13 @@ func (r *Report) RunWorkers(n int, extraArgs ...string) {
 		go func(k int) {
 			args := []string{"-tier", r.Tier, "-budget", time.Until(r.deadline).String(), "-worker", strconv.Itoa(k), "-nworkers", strconv.Itoa(n)}
 			args = append(args, extraArgs...)
-			cmd := exec.Command(os.Args[0], args...)
+			// a worker that is still running three minutes after its own deadline is killed
+			ctx, cancel := context.WithTimeout(context.Background(), time.Until(r.deadline)+3*time.Minute)
+			cmd := exec.CommandContext(ctx, os.Args[0], args...)
 			cmd.Stderr = os.Stderr
+			cmd.WaitDelay = 5 * time.Second
 			out, err := cmd.Output()
+			cancel()
 			ch <- res{k, out, err}
 		}(k)
 	}
